@@ -467,6 +467,11 @@ func managerCase(r *evid.Run, rg *rand.Rand, cs int64) {
 	}
 	for round := 0; round < 4; round++ {
 		next := []byte(fmt.Sprintf("pass-%d-%d", round, rg.Intn(1e6)))
+		if rg.Intn(2) == 0 {
+			// long passphrases: longer than one SHA-512 block together with the salt
+			next = append(next, bytes.Repeat([]byte("0123456789abcdef"), 7+rg.Intn(4))...)
+			r.Hit("manager_long_passphrases", 1)
+		}
 		whileUnlocked := rg.Intn(2) == 0
 		if whileUnlocked {
 			r.Hit("manager_passphrase_changes_while_unlocked", 1)
@@ -503,20 +508,52 @@ func managerCase(r *evid.Run, rg *rand.Rand, cs int64) {
 					return
 				}
 			}
-			// newest first: a rejected attempt locks the manager, so only the first
-			// attempt of each state really runs in that state
+			// wrong candidates: every previous passphrase (newest first) and near
+			// misses of the current one, incl. ones that differ only far into a long
+			// passphrase
+			var wrong [][]byte
 			for i := len(olds) - 1; i >= 0; i-- {
-				old := olds[i]
-				if err := unlock(old); err == nil {
-					r.Violation("manager-old-passphrase-accepted", fmt.Sprintf("round %d (%s, changed while unlocked=%v): a previous passphrase %q unlocks the manager; current is %q", round, state, whileUnlocked, old, cur), "manager", cs, nil)
-					return
-				}
-				r.Hit("manager_wrong_passphrases_rejected", 1)
+				wrong = append(wrong, olds[i])
 			}
-			near := append(append([]byte(nil), cur...), 'x')
-			if err := unlock(near); err == nil {
-				r.Violation("manager-near-miss-passphrase-accepted", fmt.Sprintf("round %d (%s): %q unlocks, current is %q", round, state, near, cur), "manager", cs, nil)
-				return
+			wrong = append(wrong, append(append([]byte(nil), cur...), 'x'), cur[:len(cur)-1])
+			flip := append([]byte(nil), cur...)
+			flip[len(flip)-1] ^= 1
+			wrong = append(wrong, flip)
+			if len(cur) > 100 {
+				wrong = append(wrong, cur[:96], cur[:100])
+			}
+			for wi, wp := range wrong {
+				// the first candidate meets the state as it is; every candidate is also
+				// tried against a manager unlocked with the current passphrase just
+				// before, and against a locked one
+				for _, pre := range []string{"as-is", "unlocked", "locked"} {
+					if pre == "as-is" && wi > 0 {
+						continue
+					}
+					switch pre {
+					case "unlocked":
+						if err := unlock(cur); err != nil {
+							r.Violation("manager-current-passphrase-rejected", fmt.Sprintf("round %d (%s, changed while unlocked=%v): Unlock(current passphrase, %d bytes) failed: %v", round, state, whileUnlocked, len(cur), err), "manager", cs, nil)
+							return
+						}
+					case "locked":
+						m.Lock()
+					}
+					wasLocked := m.IsLocked()
+					if err := unlock(wp); err == nil {
+						key := "manager-near-miss-passphrase-accepted"
+						if wi < len(olds) {
+							key = "manager-old-passphrase-accepted"
+						}
+						r.Violation(key, fmt.Sprintf("round %d (%s, manager locked before the attempt: %v, changed while unlocked=%v): %d-byte passphrase %q unlocks the manager; the current passphrase is the %d-byte %q", round, state, wasLocked, whileUnlocked, len(wp), wp, len(cur), cur), "manager", cs, nil)
+						return
+					}
+					if !m.IsLocked() {
+						r.Violation("manager-unlocked-after-wrong-passphrase", fmt.Sprintf("round %d (%s): the manager is unlocked after Unlock with a wrong passphrase", round, state), "manager", cs, nil)
+						return
+					}
+					r.Hit("manager_wrong_passphrases_rejected", 1)
+				}
 			}
 			if err := unlock(cur); err != nil {
 				r.Violation("manager-current-passphrase-rejected", fmt.Sprintf("round %d (%s, changed while unlocked=%v): Unlock(current passphrase) failed: %v", round, state, whileUnlocked, err), "manager", cs, nil)
